@@ -36,20 +36,24 @@ Definition round_half_even (n d : Z) : Z :=
   | Gt => q + 1
   | Eq => if Z.even q then q else q + 1
   end.
-(* nearest binary64 to n/d, n, d > 0: quantum 2^e with e = max (floor(log2 x) - 52) (-1074) *)
-Definition round64_pos (n d : Z) : Q :=
-  let e := Z.max (flog2 n d - 52) (-1074) in
+(* nearest value of a binary format with [prec] significant bits and least quantum 2^emin to n/d
+   (n, d > 0), ties to even: quantum 2^e with e = max (floor(log2 x) - (prec-1)) emin *)
+Definition round_pos (prec emin : Z) (n d : Z) : Q :=
+  let e := Z.max (flog2 n d - (prec - 1)) emin in
   if 0 <=? e
   then Qmake (round_half_even n (d * 2 ^ e) * 2 ^ e) 1
   else Qmake (round_half_even (n * 2 ^ (- e)) d) (Z.to_pos (2 ^ (- e))).
-Definition round64 (q : Q) : Q :=
+Definition round_bin (prec emin : Z) (q : Q) : Q :=
   match Qnum q with
   | 0 => Qmake 0 1
-  | Zpos p => round64_pos (Zpos p) (Zpos (Qden q))
-  | Zneg p => Qopp (round64_pos (Zpos p) (Zpos (Qden q)))
+  | Zpos p => round_pos prec emin (Zpos p) (Zpos (Qden q))
+  | Zneg p => Qopp (round_pos prec emin (Zpos p) (Zpos (Qden q)))
   end.
-(* binary64 product of two binary64 values *)
+Definition round64 : Q -> Q := round_bin 53 (-1074).     (* binary64 *)
+Definition round32 : Q -> Q := round_bin 24 (-149).      (* binary32 *)
+(* binary64 product of two binary64 values; binary32 product of two binary32 values *)
 Definition fmul (a b : Q) : Q := round64 (Qmult a b).
+Definition fmul32 (a b : Q) : Q := round32 (Qmult a b).
 
 (* wire: a rational is (num den), den > 0 *)
 Definition as_Q (x : sx) : Q := Qmake (as_Z (arg 0 x)) (Z.to_pos (as_Z (arg 1 x))).
@@ -61,3 +65,6 @@ Definition as_optQ (x : sx) : option Q :=
   match as_list x with [] => None | y :: _ => Some (as_Q y) end.
 
 Definition entry_fmul (x : sx) : sx := of_Q (fmul (as_Q (arg 0 x)) (as_Q (arg 1 x))).
+(* arg: (a b) -> (round32 a, binary32 product of round32 a and round32 b) *)
+Definition entry_fmul32 (x : sx) : sx :=
+  L [of_Q (round32 (as_Q (arg 0 x))); of_Q (fmul32 (round32 (as_Q (arg 0 x))) (round32 (as_Q (arg 1 x))))].
